@@ -63,6 +63,9 @@ BLIND = {  # did the owning check exist, unchanged, before the change was seen?
     'b11-C10': 'yes - caught (C10.R7 loaded-statistics variant, C09.R10)',
     'b11-C11': 'yes - caught (C11.R5 add table: scope order)',
     'b11-C17': 'yes - caught (C17.R2 / C17.R12 parameter laws for all-negative ranges; C04.R7)',
+    'b17-C02': 'yes - MISSED by every check; the graph rewrite simulation had no plan in which the LAST operator and the graph output (-1) are covered by two different groups of one tensor; three such cases added: C02.R7 = C01.R15 = C03.R11 = C19.R11 report it',
+    'b17-C05': 'yes - MISSED by every check (the bytes written by quantize_tensor were opaque to the interpreter); tobytes / frombuffer / shifts / or / pad / unsigned wrap are modelled now and C05.R13 decodes the stored bytes: 8 instead of ... bytes, rows shifted',
+    'b17-C19': 'yes - caught (C19.R2 = C01.R8: the op-id map query, run through the class\'s own functions on models with several subgraphs)',
     'b16-C01': 'yes - only ANALYSIS-ERROR (a vertical-optimisation table row forked on the token parameters); C01.R19 = C04.R16: SOFTMAX / LOGISTIC / TANH feeding a CONCATENATION with a wide-range second input - the fixed-range output must keep the kernel parameters',
     'b16-C10': 'yes - missed by C10 (C03 / C04 / C05 / C08 sweeps reported: statistics of a runtime second operand missing); the operator sweep is part of C10 now (C10.R11)',
     'b16-C14': 'yes - caught (C14.R1 effect analysis: the caller-owned calibration result reaches an in-place store)',
